@@ -1,10 +1,14 @@
-(* C13 -- entropy, KL divergence, conditional entropy and mutual information.  PARTIAL.
+(* C13 -- entropy, KL divergence, conditional entropy and mutual information.
    ElnN mu0 S0 mu S = E_{x ~ N(mu0,S0)}[ln N(x; mu, S)] by the Gaussian second-moment formula (specification GI).
-   Proved: the equalities.  NOT proved: KL >= 0 and MI >= 0 in general and 'zero only if' (they need
-   ln x <= x - 1 on an abstract logarithm and an induction on the dimension); checked on the implementation. *)
+   Proved: the equalities (any log structure), the swap invariance, and -- over an ORDERED log structure (base/OLog.v:
+   a logarithm with values in the field and ln x < x - 1 off x = 1; inhabited by the real logarithm, base/RField.v) --
+   KL >= 0 with equality only for equal mean and covariance, MI >= 0 with equality only for M = 0, in every
+   dimension (proofs/SPD.v: log-det / trace inequality by induction on the dimension, no eigenvalues). *)
+From Coq Require Import Reals.
 From mathcomp Require Import all_ssreflect all_algebra.
-From GT Require Import Tensor DetExec LogDom Obj Factor Measure Pdf Cond EvalLemmas Spec C01_proofs PdfLemmas C04_proofs C0809_proofs C1013_proofs C07_proofs.
+From GT Require Import Tensor DetExec LogDom Obj Factor Measure Pdf Cond EvalLemmas Spec C01_proofs PdfLemmas C04_proofs C0809_proofs C1013_proofs C07_proofs C13_swap OLog RField SPD C13_ineq.
 Import GRing.Theory Num.Theory.
+Local Close Scope R_scope.
 Local Open Scope ring_scope.
 
 Section C13.
@@ -50,7 +54,62 @@ Theorem C13_mutual_information_zero_if_independent (c : cond LS) (p : measure LS
   pdf_ok p -> cond_ok c -> cDx c = uD p -> (k < cR c * uR p)%N -> (cR c == 1%N) || (uR p == 1%N) ->
   (forall i j, effM c (jrc p k) i j = 0) -> mutual_information false c p k = 0.
 Proof. by apply: mutual_information_indep => c' p' H1 H2 H3; exact: joint_args_ok. Qed.
+
+(* unchanged when the roles of x and y are swapped through the conditional transformation (every class,
+   single components); and the chain rule H(Y|X) + H(X) = H(X|Y) + H(Y) *)
+Theorem C13_mutual_information_swap (c : cond LS) (p : measure LS) :
+  pdf_ok p -> cond_ok c -> cDx c = uD p -> cR c = 1%N -> uR p = 1%N -> marg_pos c p -> post_pos c p ->
+  mutual_information false (affine_conditional c p) (affine_marginal c p) 0%N = mutual_information false c p 0%N.
+Proof. exact: mi_swap_all_classes. Qed.
+Theorem C13_entropy_chain_swap (c : cond LS) (p : measure LS) :
+  pdf_ok p -> cond_ok c -> cDx c = uD p -> cR c = 1%N -> uR p = 1%N -> marg_pos c p -> post_pos c p ->
+  conditional_entropy c p 0%N + entropy p 0%N
+  = conditional_entropy (affine_conditional c p) (affine_marginal c p) 0%N + entropy (affine_marginal c p) 0%N.
+Proof. exact: chain_swap_all_classes. Qed.
 End C13.
+
+(* ---- inequalities: ordered log structure O, symmetric positive definite covariances (spd, proofs/SPD.v) ---- *)
+Section C13ineq.
+Variables (F : realFieldType) (O : ologS F).
+Notation LS := (logS_of O).
+Theorem C13_kl_nonnegative (p0 p1 : measure LS) k : pdf_ok p0 -> pdf_ok p1 -> uD p0 = uD p1 ->
+  let r0 := bidx (uR p0) k in let r1 := bidx (uR p1) k in
+  (r0 < uR p0)%N -> (r1 < uR p1)%N ->
+  spd (Sg p0 r0) -> spd (mxf (uD p0) (uD p0) (getS p1 r1)) ->
+  (0 : F) <= kl_divergence p0 p1 k.
+Proof. exact: kl_nonneg. Qed.
+Theorem C13_kl_zero_only_if_equal (p0 p1 : measure LS) k : pdf_ok p0 -> pdf_ok p1 -> uD p0 = uD p1 ->
+  let r0 := bidx (uR p0) k in let r1 := bidx (uR p1) k in
+  (r0 < uR p0)%N -> (r1 < uR p1)%N ->
+  spd (Sg p0 r0) -> spd (mxf (uD p0) (uD p0) (getS p1 r1)) ->
+  kl_divergence p0 p1 k = 0 ->
+  Sg p0 r0 = mxf (uD p0) (uD p0) (getS p1 r1) /\ muv p0 r0 = cvf (uD p0) (getmu p1 r1).
+Proof. exact: kl_eq0. Qed.
+Theorem C13_mutual_information_nonnegative (c : cond LS) (p : measure LS) k :
+  pdf_ok p -> cond_ok c -> cDx c = uD p -> (k < cR c * uR p)%N -> (cR c == 1%N) || (uR p == 1%N) ->
+  spd (cSg c (jrc p k)) -> spd (mxf (cDx c) (cDx c) (getS p (jrx p k))) ->
+  (0 : F) <= mutual_information false c p k.
+Proof. exact: mi_nonneg. Qed.
+Theorem C13_mutual_information_zero_only_if_independent (c : cond LS) (p : measure LS) k :
+  pdf_ok p -> cond_ok c -> cDx c = uD p -> (k < cR c * uR p)%N -> (cR c == 1%N) || (uR p == 1%N) ->
+  spd (cSg c (jrc p k)) -> spd (mxf (cDx c) (cDx c) (getS p (jrx p k))) ->
+  mutual_information false c p k = 0 -> cMm c (jrc p k) = 0.
+Proof. exact: mi_eq0. Qed.
+End C13ineq.
+(* the ordered log structure is inhabited by the real logarithm: oln = ln / 2 on Coq's real numbers *)
+Theorem C13_real_logarithm_is_an_instance :
+  exists O : ologS R_realFieldType, (forall x : R, oln O x = Rdiv (ln x) (IZR 2)) /\
+    ol2p O = Rdiv (ln (Rmult (IZR 2) PI)) (IZR 2).
+Proof. by exists OR; split; [exact: OR_olnE | exact: OR_ol2pE]. Qed.
+(* the positive-definiteness hypothesis is satisfiable in every real field *)
+Theorem C13_spd_inhabited (F : realFieldType) : spd (ex21 F).
+Proof. exact: spd_example. Qed.
+Print Assumptions C13_kl_nonnegative.
+Print Assumptions C13_kl_zero_only_if_equal.
+Print Assumptions C13_mutual_information_nonnegative.
+Print Assumptions C13_mutual_information_zero_only_if_independent.
+Print Assumptions C13_real_logarithm_is_an_instance.
+Print Assumptions C13_spd_inhabited.
 Print Assumptions C13_entropy.
 Print Assumptions C13_kl.
 Print Assumptions C13_kl_zero_on_equal.
@@ -58,3 +117,5 @@ Print Assumptions C13_conditional_entropy.
 Print Assumptions C13_mutual_information.
 Print Assumptions C13_mutual_information_determinants.
 Print Assumptions C13_mutual_information_zero_if_independent.
+Print Assumptions C13_mutual_information_swap.
+Print Assumptions C13_entropy_chain_swap.
